@@ -576,6 +576,8 @@ def run(chk):
     _lookup_rule(chk, prog)
     _asmrange_rule(chk, prog)
     _framefresh_rule(chk, prog)
+    _envlazy_rule(chk, prog)
+    _flagorder_rule(chk, prog)
 
 
 def _asmrange_rule(chk, prog):
@@ -649,3 +651,80 @@ def _framefresh_rule(chk, prog):
                                   "when this frame does not set it, the value left over from the previously rebuilt frame goes into the header" % (
                                       st.text()[:40], v.name))
     chk.floor(rule, 4, n)
+
+
+def _envlazy_rule(chk, prog):
+    """An on-stack closure environment is stored with a negated offset and validated against its fiber's frames on
+    first use.  It cannot be validated while the image is being read: when the fiber is reached first (fiber -> frame
+    -> closure -> env -> reference back to the fiber) the fiber in the reference table has no frames yet, the check
+    fails and an image that marshal produced from a good value is rejected."""
+    rule = "C09-ENVLAZY"
+    chk.rule(rule, "the reader does not validate an on-stack environment against its fiber while the image is still being read (janet_env_valid is not reachable from the unmarshal_one_* functions)")
+    tu = prog.tus["marsh.c"]
+    byname = {f.name: f for f in tu.funcs.values()}
+    if not any(f.calls("janet_env_valid") for f in prog.all_funcs() if f.tu.name != "marsh.c"):
+        raise AnalysisBroken("janet_env_valid has no callers outside marsh.c any more")
+    n = 0
+    for fn in tu.funcs.values():
+        if not fn.name.startswith("unmarshal_one"):
+            continue
+        n += 1
+        chk.instance(rule)
+        chk.analysed(fn)
+        # direct calls, and calls through file-local helpers that are not themselves part of the recursive reader
+        work, seen, hit = [fn], set(), None
+        while work and hit is None:
+            g = work.pop()
+            if g.name in seen:
+                continue
+            seen.add(g.name)
+            for c in g.nodes:
+                if c.k != "call" or not c.callee:
+                    continue
+                if c.callee == "janet_env_valid":
+                    hit = c
+                    break
+                h = byname.get(c.callee)
+                if h is not None and h.static and not h.name.startswith("unmarshal_one") and not h.name.startswith("marshal_one"):
+                    work.append(h)
+        if hit is None:
+            chk.ok(rule, "%s: environments stay unvalidated until first use" % fn.name)
+        else:
+            chk.violation(rule, "marsh.c", fn.name, "eager-env-check", hit.loc,
+                          "`%s` validates an environment against its fiber while the image is being read: if the fiber was reached "
+                          "first it is in the reference table without frames, the check fails, and a value that marshals is rejected "
+                          "when read back" % hit.text()[:60])
+    chk.floor(rule, 4, n)
+
+
+def _flagorder_rule(chk, prog):
+    """janet_asm1 assembles def->flags from the optional keys of the input and derives other fields from them (the
+    initial slot count reserves a slot for the rest argument when VARARG is set).  A field derived from a flag that is
+    set further down is derived from a flag that is still clear."""
+    rule = "C09-FLAGORDER"
+    chk.rule(rule, "janet_asm1 reads a bit of def->flags only after every statement that can set that bit")
+    fn = prog.need_func("janet_asm1", "asm.c")
+    chk.analysed(fn)
+    order = {id(x): i for i, x in enumerate(fn.nodes)}
+    sets, reads = {}, []
+    for x in fn.nodes:
+        if x.k == "asg" and x.op in ("|=", "=") and x.kids[0].k == "mem" and x.kids[0].field == "flags" and x.kids[0].rec == "JanetFuncDef":
+            for m in set(m for y in x.kids[1].walk() for m in y.macro_names() if m.startswith("JANET_FUNCDEF_FLAG_")):
+                sets.setdefault(m, []).append(x)
+        elif x.k == "bin" and x.op == "&" and any(y.k == "mem" and y.field == "flags" and y.rec == "JanetFuncDef" for y in x.kids[0].walk()) \
+                and not (x.parent is not None and x.parent.k == "asg" and x.parent.kids[0] is x):
+            for m in set(m for y in x.kids[1].walk() for m in y.macro_names() if m.startswith("JANET_FUNCDEF_FLAG_")):
+                reads.append((m, x))
+    if not reads:
+        raise AnalysisBroken("janet_asm1 no longer derives anything from def->flags")
+    for m, x in reads:
+        chk.instance(rule)
+        late = [w for w in sets.get(m, []) if order[id(w)] > order[id(x)]]
+        if not late:
+            chk.ok(rule, "janet_asm1: %s read at %s after it was assembled" % (m, x.loc))
+        else:
+            chk.violation(rule, "asm.c", "janet_asm1", "early-read:" + m, x.loc,
+                          "`%s` reads %s before `%s` (%s) can set it: what is derived here (the initial slot count) misses the flag, "
+                          "and a function that disasm produced is rejected or gets no slot for its rest argument" % (
+                              x.text()[:50], m, late[0].text()[:50], late[0].loc))
+    chk.floor(rule, 1, len(reads))
